@@ -126,6 +126,31 @@ def getGuardianSet (g : GS) (index : Int) (dial : Bool) (chain : Chain) : GetOut
             | some s => ⟨g', .ok s, [c], some (lo, hi)⟩
             | none => ⟨g', .panic, [c], some (lo, hi)⟩
 
+/-- `GetGuardianSet(ctx, index)` when other callers run between its two critical sections (gst_data.go:50-67: `lookup`
+releases the lock before the chain is asked): the first `lookup` read `current = cur0` and took the slow path, the range
+`[cur0+1 .. index]` was fetched without the lock, and the fetched batch reaches `updateGuardianSets` in the state `g` that the
+other callers (the periodic updater, another lookup) have produced meanwhile — an *overlapping* fetch when `cur0 < g.cur`
+(the batch starts below `g.cur + 1`), a *repeated* one when it ends at or below `g.cur`.  `cur0 = g.cur` is `getGuardianSet`. -/
+def getGuardianSetStale (g : GS) (cur0 : Int) (index : Int) (dial : Bool) (chain : Chain) : GetOut :=
+  if index ≤ cur0 then getGuardianSet g index dial chain
+  else
+    let lo := u32 (cur0 + 1)
+    let hi := u32 index
+    if !dial then ⟨g, .err, [], none⟩
+    else
+      match fetchRange chain lo hi with
+      | none => ⟨g, .err, [], some (lo, hi)⟩
+      | some sets =>
+        let g' := (update g sets).1
+        match listAt g'.list g'.cur with
+        | none => ⟨g', .panic, [], some (lo, hi)⟩
+        | some c =>
+          if index > g'.cur then ⟨g', .err, [c], some (lo, hi)⟩
+          else
+            match listAt g'.list index with
+            | some s => ⟨g', .ok s, [c], some (lo, hi)⟩
+            | none => ⟨g', .panic, [c], some (lo, hi)⟩
+
 /-- `GetCurrentGuardianSet`. -/
 def getCurrent (g : GS) : Option GSet := listAt g.list g.cur
 
@@ -188,6 +213,19 @@ structure PushOut where
 `room` = the non-blocking send found space in the queue. -/
 def push (g : GS) (v : Vaa) (recover : Bytes → Option Addr) (dial : Bool) (chain : Chain) (hit room : Bool) : PushOut :=
   let o := getGuardianSet g (v.gsIndex : Int) dial chain
+  match o.res with
+  | .err => ⟨o.st, .getErr, o.sent, o.asked, false, false⟩
+  | .panic => ⟨o.st, .getPanic, o.sent, o.asked, false, false⟩
+  | .ok s =>
+    match verifyVAA recover v s.keys with
+    | some e => ⟨o.st, .invalid e, o.sent, o.asked, false, false⟩
+    | none =>
+      let a := apply hit room
+      ⟨o.st, if hit then .dup else if room then .queued else .full, o.sent, o.asked, a.called && room, a.stored⟩
+
+/-- `Push` whose guardian-set lookup is overtaken by other callers (`getGuardianSetStale`). -/
+def pushStale (g : GS) (cur0 : Int) (v : Vaa) (recover : Bytes → Option Addr) (dial : Bool) (chain : Chain) (hit room : Bool) : PushOut :=
+  let o := getGuardianSetStale g cur0 (v.gsIndex : Int) dial chain
   match o.res with
   | .err => ⟨o.st, .getErr, o.sent, o.asked, false, false⟩
   | .panic => ⟨o.st, .getPanic, o.sent, o.asked, false, false⟩
